@@ -485,6 +485,48 @@ Proof.
   repeat (destruct Ho as [<-|Ho]; [vm_compute; discriminate|]). destruct Ho.
 Qed.
 
+(* the hypotheses of C14_repeatable are satisfiable: the example heap, and as
+   the later heap the example heap with one more object allocated (every
+   fresh object of the second run is relocated by one) *)
+Lemma ex_below : heap_below ex_mem.
+Proof.
+  intros o v Hg. unfold mget, ex_mem, ex_heap in Hg. simpl in Hg.
+  repeat (match type of Hg with context [N.eqb o ?k] =>
+            destruct (N.eqb_spec o k); [inversion Hg; subst; simpl; repeat constructor; lia|] end).
+  discriminate.
+Qed.
+
+Definition ex_later : mem := fst (alloc ex_mem (OEnumV (str_of_string "Z") (PStr (str_of_string "Z")) None None [])).
+
+Example C14_example_repeatable :
+  exists s ma ra mb rb,
+    build 50 ex_mem (Some 10) None None [] [] = Ok s /\
+    fresh_ok ex_mem /\ fresh_ok ex_later /\ heap_below ex_mem /\ 5 < m_next ex_mem /\
+    m_next ex_later = m_next ex_mem + 1 /\
+    (forall o, o < m_next ex_mem -> mget ex_later o = mget ex_mem o) /\ schema_below (m_next ex_mem) s /\
+    transform 50 (camel_visitor (fun n => (n ++ [65%N])%list)) ex_mem s = Ok (ma, ra) /\
+    transform 50 (camel_visitor (fun n => (n ++ [65%N])%list)) ex_later s = Ok (mb, rb) /\
+    observe mb (touch_poss mb rb) = observe ma (touch_poss ma ra).
+Proof.
+  set (s := MkSchema (builtin_types ++ [(str_of_string "Query", 10); (str_of_string "E", 14)])%list [] (Some 10) None None [] []).
+  assert (Hb : build 50 ex_mem (Some 10) None None [] [] = Ok s) by (vm_compute; reflexivity).
+  assert (Ha : exists ma ra, transform 50 (camel_visitor (fun n => (n ++ [65%N])%list)) ex_mem s = Ok (ma, ra))
+    by (vm_compute; eexists; eexists; reflexivity).
+  assert (Hbb : exists mb rb, transform 50 (camel_visitor (fun n => (n ++ [65%N])%list)) ex_later s = Ok (mb, rb))
+    by (vm_compute; eexists; eexists; reflexivity).
+  destruct Ha as (ma & ra & Ha). destruct Hbb as (mb & rb & Hbb).
+  exists s, ma, ra, mb, rb.
+  assert (Hf' : fresh_ok ex_later) by (apply fresh_alloc; exact ex_fresh).
+  assert (Hfr : forall o, o < m_next ex_mem -> mget ex_later o = mget ex_mem o).
+  { intros o Ho. unfold ex_later. rewrite mget_alloc. destruct (N.eqb_spec o (m_next ex_mem)); [lia|reflexivity]. }
+  assert (Hs : schema_below (m_next ex_mem) s).
+  { unfold schema_below, s. simpl. repeat constructor; simpl; lia. }
+  split; [exact Hb|]. split; [exact ex_fresh|]. split; [exact Hf'|]. split; [exact ex_below|].
+  split; [simpl; lia|]. split; [reflexivity|]. split; [exact Hfr|]. split; [exact Hs|].
+  split; [exact Ha|]. split; [exact Hbb|].
+  eapply C14_repeatable; [exact ex_fresh|exact Hf'|exact ex_below|simpl; lia|simpl; lia|exact Hfr|exact Hs|apply C14_repeatable_camel|exact Ha|exact Hbb].
+Qed.
+
 (* the hypotheses of C14_heal_terminates are satisfiable *)
 Example C14_example_terminates :
   exists s, build 50 ex_mem (Some 10) None None [] [] = Ok s /\
